@@ -179,6 +179,10 @@ func init() {
 	if b, err := format.Source([]byte("package a\n\nconst (\n\tA = iota // first\n\tB /* second */\n\tC /* third */\n\tLongerName = 7 /* fourth */\n)\n\nvar (\n\tx, y int /* xy */\n\tz = 1 // z\n)\n")); err == nil {
 		sinkSources = append(sinkSources, string(b))
 	}
+	// channel types with a comment after the chan keyword (the position of the arrow relative to it)
+	if b, err := format.Source([]byte("package a\n\nvar rc <-chan /* elem */ int\n\nvar sc chan<- /* s */ int\n\nvar bc chan /* b */ int\n\nfunc fc(in <-chan /* in */ T, out chan<- T) {}\n")); err == nil {
+		sinkSources = append(sinkSources, string(b))
+	}
 	// raw strings: with an empty line inside, starting and ending with a line break, as the last
 	// thing before a blank line
 	sinkSources = append(sinkSources, "package a\n\nvar r = `a\n\nb\nc`\n\nvar s = []string{\n\t// lead\n\t`\nx\n\n\ny\n`,\n\n\t/* block */ `z\nw`,\n}\n\nfunc u() {\n\tuse(`p\n\nq`)\n\n\tuse(s)\n}\n")
